@@ -527,6 +527,12 @@ impl OwnedValue {
         builder: &mut crate::records::RecordBuilder<'_>,
         buffer: &mut Vec<u8>,
     ) -> Result<()> {
+        eyre::ensure!(
+            values.len() <= builder.column_count(),
+            "row has {} values but the table has {} columns",
+            values.len(),
+            builder.column_count()
+        );
         builder.reset();
         for (idx, val) in values.iter().enumerate() {
             val.set_in_builder(builder, idx)?;
